@@ -35,6 +35,8 @@ def ground_truth(formula, timeout_ms=20000):
 
 def real_function(target):
     modname, qual = target.split(":")
+    from .source import ensure_generated
+    ensure_generated(modname)
     obj = importlib.import_module(modname)
     for part in qual.split("."):
         obj = getattr(obj, part)
